@@ -8,7 +8,7 @@ From Coq Require Import ZArith List.
 From Verif Require Import Jit.Lang Jit.Interp Jit.Safety Gen.Kernels.
 From Verif Require Import Inv.Jitrestrict Inv.Jitrestrict_with_count Inv.Jitin_interval Inv.Jitunion_isets Inv.Jitfix_iset
   Inv.Jitintersect Inv.Jitunion Inv.Jitdiff Inv.Jitremove_nan Inv.Jitthreshold Inv.Jitcount Inv.Jitbin_array Inv.Jitvaluefrom
-  Inv.Cross_correlogram Inv.Jitcontinuous_perievent.
+  Inv.Cross_correlogram Inv.Jitcontinuous_perievent Inv.Jitperievent_trigger_average Inv.Overlap_split.
 
 Theorem C15_jitrestrict : forall args, Pre_jitrestrict args -> forall fuel, safe_outcome (run fuel k_jitrestrict args).
 Proof. exact k_jitrestrict_safe. Qed.
@@ -55,6 +55,15 @@ Print Assumptions C15_cross_correlogram.
 Theorem C15_jitcontinuous_perievent : forall args, Pre__jitcontinuous_perievent args -> forall fuel, safe_outcome (run fuel k__jitcontinuous_perievent args).
 Proof. exact k__jitcontinuous_perievent_safe. Qed.
 Print Assumptions C15_jitcontinuous_perievent.
+
+Theorem C15_jitperievent_trigger_average : forall args, Pre__jitperievent_trigger_average args -> forall fuel, safe_outcome (run fuel k__jitperievent_trigger_average args).
+Proof. exact k__jitperievent_trigger_average_safe. Qed.
+Print Assumptions C15_jitperievent_trigger_average.
+(* floats are exact rationals in the interpreter: the rounding of N = ceil(sum / (interval_size (1 - overlap))) in float64 is not
+   covered; the kernel's own N + 1 slack absorbs it *)
+Theorem C15_overlap_split : forall args, Pre__overlap_split args -> forall fuel, safe_outcome (run fuel k__overlap_split args).
+Proof. exact k__overlap_split_safe. Qed.
+Print Assumptions C15_overlap_split.
 
 (* the calculus itself *)
 Theorem C15_wp_sound : forall (env : list func) (ann : nat -> annot) (c : stmt) (Q : post) (st : store) (fuel : nat),
